@@ -1,6 +1,9 @@
 pub mod common;
+pub mod ctx;
+pub mod c01;
 pub mod c02;
 pub mod c03;
+pub mod c04;
 pub mod c06;
 pub mod c07;
 pub mod c12;
@@ -9,8 +12,10 @@ use crate::engine::{run, Opts};
 
 pub fn dispatch(id: &str, opts: &Opts) -> i32 {
     match id {
+        "C01" => run(&c01::C01, opts),
         "C02" => run(&c02::C02, opts),
         "C03" => run(&c03::C03, opts),
+        "C04" => run(&c04::C04, opts),
         "C06" => run(&c06::C06, opts),
         "C07" => run(&c07::C07, opts),
         "C12" => run(&c12::C12, opts),
